@@ -294,8 +294,9 @@ def run_median(ctx, model, p):
             ctx.mismatch("median", {"filter": "median", "params": p, "impl_error": err},
                          first_diff(impl, mres), None)
         if err:
-            if not (ny + 1 < w or nx + 1 < w):
-                ctx.violation("median_raises", f"median filter_size {w} on a {ny}x{nx} map raised {err}", {"filter": "median", "params": p})
+            # no size is outside the property: an image smaller than the window has no pixel farther from the edge
+            # than the radius, every pixel must come out untouched
+            ctx.violation("median_raises", f"median filter_size {w} on a {ny}x{nx} map raised {err}", {"filter": "median", "params": p})
             return
         rp = {"filter": "median", "params": p}
         if not np.array_equal(ds["validity_mask"].data, mask) or ds["validity_mask"].data.dtype != mask.dtype:
@@ -500,8 +501,7 @@ def run_mfi(ctx, model, p):
         if impl != mres[0]:
             ctx.mismatch("median_for_intervals", {"filter": "mfi", "params": p, "impl_error": err}, first_diff(impl, mres[0]), None)
         if err:
-            if not (ny + 1 < w or nx + 1 < w):
-                ctx.violation("mfi_raises", f"median_for_intervals filter_size {w} on a {ny}x{nx} map raised {err}", {"filter": "mfi", "params": p})
+            ctx.violation("mfi_raises", f"median_for_intervals filter_size {w} on a {ny}x{nx} map raised {err}", {"filter": "mfi", "params": p})
             return
         if spy_in is not None:
             # the bands handed to the regularisation are the median-filtered bands
